@@ -258,6 +258,68 @@ func c14CheckCommittedOnce(o *fw.Obs, w *c14World, class, how string) bool {
 	return true
 }
 
+// c14Reapply: a committed transaction, later work on its branches, then `wrgl reapply`: every branch gets ONE new commit
+// that is readable, carries the transaction's table and sits on top of the branch's latest commit.
+func c14Reapply(c *fw.Case, o *fw.Obs, p *c14Params, class string) *fw.Obs {
+	w, err := c14Setup(p)
+	if err != nil {
+		o.Status = "inconclusive"
+		o.Note = err.Error()
+		return o
+	}
+	defer w.sdb.Close()
+	if _, err := transaction.Commit(w.db, w.rs, w.id); err != nil {
+		o.Violate("commit-error/"+class, "%v", err)
+		return o
+	}
+	later := map[string][]byte{}
+	i := 0
+	for name := range w.heads0 {
+		head, _ := ref.GetHead(w.rs, name)
+		t := make([]byte, 16)
+		t[0], t[1] = 0xB0, byte(i)
+		i++
+		sum, com, err := mon.SaveCommitObj(w.db, t, [][]byte{head}, "later work on "+name, time.Unix(1600003000, 0))
+		if err != nil || ref.CommitHead(w.rs, name, sum, com, nil) != nil {
+			o.Status = "inconclusive"
+			return o
+		}
+		later[name] = sum
+	}
+	var rerr error
+	if pn := fw.Catch(func() {
+		rerr = transaction.Reapply(w.db, w.rs, w.id, func(branch string, sum []byte, message string) {})
+	}); pn != "" {
+		o.Violate("panic/reapply/"+class, "%s", pn)
+		return o
+	}
+	o.Ev("oracle_evaluations", 1)
+	o.Ev("reapplies", 1)
+	if rerr != nil {
+		o.Violate("reapply-error/"+class, "%v", rerr)
+		return o
+	}
+	for name := range w.heads0 {
+		head, err := ref.GetHead(w.rs, name)
+		if err != nil {
+			o.Violate("reapply-head-missing/"+class, "%s: %v", name, err)
+			return o
+		}
+		com, err := objects.GetCommit(w.db, head)
+		if err != nil {
+			o.Violate("reapply-head-unreadable/"+class, "after reapply the head of %s cannot be read: %v", name, err)
+			return o
+		}
+		if !bytes.Equal(com.Table, w.tables[name]) || len(com.Parents) != 1 || !bytes.Equal(com.Parents[0], later[name]) {
+			o.Violate("reapply-wrong-commit/"+class, "after reapply the head of %s carries table %x (want %x) on parents %x (want the later commit %x)", name, com.Table, w.tables[name], com.Parents, later[name])
+			return o
+		}
+	}
+	o.Key("reapply/%v", p.Existing)
+	o.Sample = map[string]interface{}{"mode": "reapply", "branches": p.K, "existing": p.Existing}
+	return o
+}
+
 // cursorDuringMove is the ref store with a foreign reader: while the at-th branch move runs, another connection to the
 // same SQLite file (another wrgl process listing refs, a backup tool) has a result set open, which holds a shared lock.
 type cursorDuringMove struct {
@@ -367,6 +429,8 @@ func c14Run(c *fw.Case, env *fw.Env) *fw.Obs {
 		return c14CLI(c, env, o, &p)
 	case "foreign-reader":
 		return c14ForeignReader(c, env, o, &p, class)
+	case "reapply":
+		return c14Reapply(c, o, &p, class)
 	case "sequence":
 		w, err := c14Setup(&p)
 		if err != nil {
@@ -660,6 +724,7 @@ func init() {
 				if len(mix) >= 2 && len(mix) <= 3 {
 					l.Add("foreign-reader", c14Params{K: len(mix), Existing: mix, Mode: "foreign-reader"}, 0)
 				}
+				l.Add("reapply", c14Params{K: len(mix), Existing: mix, Mode: "reapply"}, 0)
 				if len(mix) >= 2 {
 					l.Add("fail-advance", c14Params{K: len(mix), Existing: mix, Mode: "fail-advance"}, 0)
 				}
